@@ -747,6 +747,11 @@ class Interp:
             return ('int', v[1])
         if h == 'adt' and v[1] == OPTION:
             return ('none',) if v[2] == 0 else ('some', self.rtag(st, v[3][0], depth + 1))
+        if h in ('oarr', 'oslice') and isinstance(v[1], tuple):
+            return self.trim(v[1])
+        if h == 'adt' and v[1] in ('core::iter::adapters::copied::Copied', 'core::iter::adapters::cloned::Cloned') and v[3]:
+            nm = 'copied' if v[1].endswith('Copied') else 'cloned'
+            return ('c', 'core::iter::traits::iterator::Iterator::' + nm, (self.rtag(st, v[3][0], depth + 1),))
         return (h,)
 
     # ------------------------------------------------------------------ key scans (DESIGN §2.2)
